@@ -55,7 +55,8 @@ CHECKS = {
 }
 
 CHECKS['C03'] = {
-    'verus_units': ['eval'],
+    'verus_units': ['eval', 'select'],
+    'clause_prefixes': ['c03', 'value.', 'engine.', 'row.', 'select.'],
     'technique': 'contract-based deductive verification (Verus): arms of ExpressionExecutionEngine::evaluate extracted from /repo and proved against a recursive specification sem_eval written from the property text; structural induction through the contract of evaluate',
     'claim': 'Proof, for all expression trees, rows and values, that the extracted arms of evaluate (literal, column access, comparison, IS, arithmetic, unary, AND/OR, IN/NOT IN, subscript, CASE) return exactly sem_eval(expression, row) - comparisons by value and false on NULL, NULL-propagating arithmetic with overflow and division by zero as errors, two-valued logic, IN as OR of =, first true CASE branch, 1-based subscripts - or an error when sem_eval has no value.',
     'note': 'Trusted: derived comparison of Value (uninterpreted value_cmp; its laws are C16), IEEE and chrono arithmetic as uninterpreted total functions, ValueType::parse, closure/loop contracts spliced by ordinal (rule E5). Unproved arms: FunctionCall, TypeConversion, Aggregate lookup; lowering of parse trees and result column names are not covered.',
@@ -79,6 +80,18 @@ CHECKS['C09'] = {
     'explanation': 'Verus generates, for every extracted function, the obligations that each arithmetic operation fits its type, each divisor is non-zero, each index is in bounds and each callee precondition (including `requires false` of the unimplemented!/panic! stand-in) holds; this check counts exactly those.',
     'trusted': COMMON_TRUST,
     'unproved': ['OutputPrinter::print', 'AggregateExecutionEngine::execute_result / accept_group', 'ValueType::parse timestamp branch (Local time zone)', 'Value::json_value'],
+}
+
+CHECKS['C08'] = {
+    'verus_units': ['select'],
+    'clause_prefixes': ['c08'],
+    'technique': 'contract-based deductive verification (Verus): DistinctValues::add and the DISTINCT branch of SelectExecutionEngine::execute extracted from /repo, set membership modelled by Value equality classes',
+    'claim': 'Proof for all rows and histories of one engine that, on the non-aggregate path, DistinctValues::add returns true exactly for a tuple with no value-equal predecessor and remembers exactly that tuple, and that SelectExecutionEngine::execute emits the projected row iff WHERE is true and (not DISTINCT or first occurrence), otherwise leaves the memory unchanged; surviving rows are emitted unchanged. The aggregate path (execute_result) is NOT covered.',
+    'note': 'Trusted: FnvHashSet<Vec<Value>> behaves as a set under Value\'s Eq/Hash (stand-in VRowSet; hash/eq consistency is C16), Vec<Value>::clone copies. Not covered: DISTINCT in AggregateExecutionEngine::execute_result (outside the accepted subset: nested BTreeMap/HashMap iteration).',
+    'level': 'proof',
+    'explanation': 'The abstract DISTINCT memory is the sequence of remembered tuples; membership is pointwise value_eq. The contract of execute is stated over that view and over sem_eval of the projections.',
+    'trusted': COMMON_TRUST + ['fnv::FnvHashSet contains/insert as a mathematical set over Eq classes of Vec<Value> (assumed; relies on C16 laws)'],
+    'unproved': ['AggregateExecutionEngine::execute_result DISTINCT handling (with and without HAVING)'],
 }
 
 NOT_APPLICABLE = {
